@@ -51,6 +51,13 @@ SEEDS = {
     "C09d": ("C09", "--count clips the bin end to the contig length (and then uses it as divisor and output coordinate)", "--count with a bin running past the end of its contig", "caught", None),
     "C10d": ("C10", "get_combiners fills its defaults into the caller's `combine` dict", "merge / flatten with a caller-supplied combiner dict on overlapping rows; the strand combiner sticks from the first call", "missed", "C10 now has a step that merges / flattens an overlapping mixed-strand table with a shared combiner dict"),
     "C20d": ("C20", "create_chrom_ids skips every all-digit chromosome name", "export seg --enumerate-chroms with plain names whose autosomes are not a contiguous 1..n", "missed", "C20 now draws both naming styles and non-contiguous autosome panels for the multi-sample exports"),
+    "C02e": ("C02", "NaN-log2 fallback moved before the per-row reference lookup and filled with ploidy", "a missing log2 on Y or on haploid-reference X", "caught", None),
+    "C06e": ("C06", "subdivide drops rows shorter than min_size before merging", "min_size > 0 and short rows that overlap or abut into a region >= min_size", "caught", None),
+    "C07e": ("C07", "into_ranges skips the summary when all hits carry the same value", ">= 2 hits with equal values and a non-idempotent summary function, or NaN as first hit", "caught", None),
+    "C12e": ("C12", "subtract: the 'exclusion overlaps only the right side' branch still reads the raw (not running-maximum) ends", "nested targets followed by a later target, accessible region whose right edge is covered by a padded target (always so without an access table)", "missed", "C12 now places baits beyond the guessed telomere end when no access table is given and puts access-region edges next to bait edges (C06's check also catches this change)"),
+    "C16e": ("C16", "group_by_genes also skips genes whose own mean is NaN", "genemetrics with segments + skip_low and a gene whose bins inside the segment are all null-coverage", "caught", None),
+    "C18e": ("C18", "_resolve_sample treats the integer selector 0 as 'not given'", "normal_id=0 (or sample_id=0 against PEDIGREE)", "caught", None),
+    "C19e": ("C19", "on_array applies the length-1 shortcut before stripping NaN", "a vector with exactly one finite value among NaNs (gapper_scale, q_n)", "caught", None),
 }
 
 
